@@ -178,9 +178,22 @@ def edits(rng, w, info, k=3):
 
     def idx(o):
         return w.index[id(o)]
+    # directed first edit (a third of the time): a cell with at least two levels of hierarchy below it gets one
+    # more instance somewhere under the top - every element two or more levels further down gains occurrences
+    # while the reference sets next to it stay as they were
+    if rng.random() < 0.35:
+        tall = [w.objs[i] for i in defs if any(c.reference is not None and c.reference.children for c in w.objs[i].children)]
+        nl = w.objs[info['netlist']]
+        topd = nl.top_instance.reference if nl.top_instance is not None else None
+        if tall and topd is not None:
+            P = rng.choice(tall)
+            hosts = [w.objs[i] for i in defs if w.objs[i] is not P and _reaches(topd, w.objs[i]) and not _reaches(P, w.objs[i])]
+            if hosts:
+                from ir_world import tok_of_s
+                out.append(['create', 'children', str(idx(rng.choice(hosts))), tok_of_s('g%d' % rng.randint(0, 99)), '0', '0', str(idx(P))])
     for _ in range(k):
         kind = rng.choice(['rmchild', 'rmchild', 'setref', 'setref', 'rmport', 'rmcable', 'rmwire', 'rmpin',
-                           'unref', 'settop', 'rename', 'addchild'])
+                           'unref', 'settop', 'rename', 'addchild', 'addchild'])
         d = w.objs[rng.choice(defs)]
         if kind == 'rmchild' and d.children:
             c = rng.choice(list(d.children))
@@ -229,6 +242,11 @@ def edits(rng, w, info, k=3):
                 out.append(['setname', str(idx(rng.choice(cands))), tok_of_s('r%d' % rng.randint(0, 9))])
         elif kind == 'addchild':
             lower = [w.objs[i] for i in defs if w.objs[i] is not d and not _reaches(w.objs[i], d)]
+            # half of the time the new instance instantiates a cell with at least two levels below it: every
+            # element further down then has more occurrences although no reference set near it changed
+            tall = [x for x in lower if any(c.reference is not None and c.reference.children for c in x.children)]
+            if tall and rng.random() < 0.5:
+                lower = tall
             if lower:
                 from ir_world import tok_of_s
                 out.append(['create', 'children', str(idx(d)), tok_of_s('n%d' % rng.randint(0, 99)), '0', '0', str(idx(rng.choice(lower)))])
